@@ -61,7 +61,8 @@ Definition chk (c : node * op16 * outv * node) : nat :=
   | RFmt tbl =>
       let f := subn_of tbl in
       let '(m, cnt) := repl f true pre in
-      if negb (covers tbl pc) then 7
+      if negb (wsl pre) then 8
+      else if negb (covers tbl pc) then 7
       else if negb (str_eqb (readable_ev qc) (readable_ev (replace_ev f pc))) then 1
       else if negb (implied (own_flags f pre) (nf_flags post)) then 4
       else if negb (evs_eqb (nview (content m)) (nview qc)) then 3
@@ -211,7 +212,7 @@ def run(tier, seed, replay=None):
     if replay:
         cases = [json.load(open(replay))["case"]]; ncorpus = 0
     else:
-        cases += gen_cases(rng, 420 if tier == "quick" else 6500)
+        cases += gen_cases(rng, 1500 if tier == "quick" else 22000)
     terms, metas, driver_errors = [], [], []
     for c in cases:
         try:
